@@ -2741,6 +2741,13 @@ int32 parseFinished(ssl_t *ssl, int32 hsLen,
     {
         if (!(ssl->flags & SSL_FLAGS_RESUMED))
         {
+# ifdef USE_SERVER_SIDE_SSL
+            /* Full handshake, client's Finished verified (hsState is
+               SSL_HS_DONE now): from here on the session cache entry that
+               was registered with our ServerHello may be resumed, also by
+               parallel connections while this one stays open. */
+            matrixUpdateSession(ssl);
+# endif
             rc = SSL_PROCESS_DATA;
         }
         else
